@@ -22,11 +22,11 @@ tvars == <<vars, l, cid, mon, viol, ndiv, divs, dflag, ncases>>
 
 \* monitor: last observed projection + per-connection counters
 Mon0 == [sock |-> "Off", enc |-> FALSE, lst |-> "Core", authed |-> FALSE, session |-> FALSE, redirect |-> FALSE,
-         conn |-> 0, connSig |-> 0, hung |-> FALSE]
+         conn |-> 0, connSig |-> 0, hung |-> FALSE, iq |-> "none"]
 
 TInit ==
     /\ cfg = CHOOSE x \in AllCfgs : TRUE
-    /\ c = C0 /\ expect = "None" /\ conf = TRUE /\ leak = FALSE /\ connSig = 0 /\ lastOut = <<>> /\ lastSig = <<>> /\ hist = <<>>
+    /\ c = C0 /\ expect = "None" /\ conf = TRUE /\ prev = Prev0 /\ leak = FALSE /\ connSig = 0 /\ lastOut = <<>> /\ lastSig = <<>> /\ hist = <<>>
     /\ l = 1 /\ cid = "" /\ mon = Mon0 /\ viol = {} /\ ndiv = 0 /\ divs = <<>> /\ dflag = FALSE /\ ncases = 0
 
 ElemOf(ev) ==
@@ -64,7 +64,7 @@ MonNext(m, ev) ==
     IN [sock |-> p.sock, enc |-> p.enc, lst |-> p.lst, authed |-> p.authed, session |-> p.session, redirect |-> p.redirect,
         conn |-> p.conn,
         connSig |-> (IF newConn THEN 0 ELSE m.connSig) + NConnected(ev.sig),
-        hung |-> ev.hang]
+        hung |-> ev.hang, iq |-> p.iq]
 
 \* property predicates on observed facts. m = monitor before the step, n = after,
 \* okModel = the execution had not diverged before this step, cf = the model's `conf` after the step,
@@ -76,6 +76,7 @@ Failed(m, n, ev, okModel, cf, modelConnected) ==
     IN {x \in {"C04-SensitiveBeforeTls", "C04-SecretBeforeTls", "C04-AuthenticatedUnencrypted", "C04-DoesNotGiveUp",
                "C10-DownButSession", "C10-CutNotDisconnected", "C10-SessionTwice", "C10-SessionDuringNegotiation",
                "C10-SessionBeforeNegotiationFinished", "C10-RequestCompletedTwice", "C10-RequestRetainedNotResumable",
+               "C10-RequestSurvivesNewSession",
                "C10-StaleStateOnNewStream"} :
         CASE x = "C04-SensitiveBeforeTls" -> ~P_NoLeak(tls, out)
           [] x = "C04-SecretBeforeTls" -> tls = "Required" /\ ev.rawLeak
@@ -92,6 +93,10 @@ Failed(m, n, ev, okModel, cf, modelConnected) ==
           [] x = "C10-RequestCompletedTwice" -> p.iqDone > 1
           \* C10_RequestsSettled on observed facts: disconnected and not resumable, yet a request is still pending
           [] x = "C10-RequestRetainedNotResumable" -> ~ev.hang /\ p.sock = "Off" /\ p.state = 0 /\ ~p.canResume /\ p.iq = "out"
+          \* a session that is not a resumption of the one the request was sent on cannot answer it
+          \* any more: when such a session is reported the request must have been completed
+          [] x = "C10-RequestSurvivesNewSession" ->
+                NConnected(ev.sig) > 0 /\ ~p.smResumed /\ m.iq = "out" /\ ev.e # "SendIq" /\ p.iq = "out"
           [] x = "C10-StaleStateOnNewStream" ->
                 /\ ev.e = "Connect" /\ ~ev.hang /\ p.sock = "On"
                 /\ ~( /\ Len(out) = 1 /\ out[1].k = "StreamOpen" /\ ~out[1].enc
@@ -100,7 +105,7 @@ Failed(m, n, ev, okModel, cf, modelConnected) ==
 
 ResetStep(ev) ==
     /\ cfg' = ev.cfg
-    /\ c' = C0 /\ expect' = "None" /\ conf' = TRUE /\ leak' = FALSE /\ connSig' = 0 /\ lastOut' = <<>> /\ lastSig' = <<>> /\ hist' = <<>>
+    /\ c' = C0 /\ expect' = "None" /\ conf' = TRUE /\ prev' = Prev0 /\ leak' = FALSE /\ connSig' = 0 /\ lastOut' = <<>> /\ lastSig' = <<>> /\ hist' = <<>>
     /\ cid' = ev.case /\ mon' = [Mon0 EXCEPT !.conn = ev.conn0] /\ dflag' = FALSE /\ ncases' = ncases + 1
     /\ UNCHANGED <<viol, ndiv, divs>>
 
